@@ -99,6 +99,64 @@ def check(env, rep, tier):
                 if isinstance(rq, StructV) and src_i and not isinstance(rq.fields[src_i[0]], TopV):
                     ok = True
             rep.ob("C12.2", "endpoint", ok, "the cache key does not read request.source (transfers of different endpoints would share state)", site)
+            # every key field is its request datum carried unchanged: the value may pass only through the
+            # information-preserving steps enumerated here (anything else - a filter, a join, a truncation -
+            # can make two different resources / endpoints / methods share one state)
+            import provenance
+            PRESERVING = ("core::result::Result::<T, E>::unwrap_or_default", "core::result::Result::<T, E>::unwrap_or",
+                          "core::result::Result::<T, E>::unwrap_or_else", "core::result::Result::<T, E>::unwrap",
+                          "core::result::Result::<T, E>::expect", "core::result::Result::<T, E>::ok",
+                          "core::option::Option::<T>::unwrap_or_default", "core::option::Option::<T>::unwrap_or",
+                          "core::option::Option::<T>::unwrap_or_else", "core::option::Option::<T>::unwrap",
+                          "core::option::Option::<T>::expect", "core::option::Option::<T>::as_ref",
+                          "core::option::Option::<&T>::cloned", "core::option::Option::<&T>::copied",
+                          "<core::option::Option<T> as core::clone::Clone>::clone", "core::clone::Clone::clone",
+                          "<alloc::vec::Vec<T, A> as core::clone::Clone>::clone", "alloc::borrow::ToOwned::to_owned",
+                          "<T as core::convert::Into<U>>::into", "<T as core::convert::From<T>>::from",
+                          "header::<impl core::convert::From<header::MessageClass> for u8>::from",
+                          "header::<impl core::convert::From<header::RequestType> for u8>::from")
+            SOURCES = {"method": "request::CoapRequest::<Endpoint>::get_method",
+                       "path": "request::CoapRequest::<Endpoint>::get_path_as_vec"}
+            aggs = []
+            for bb in kb["blocks"]:
+                if bb.get("cleanup"):
+                    continue
+                for stt in bb["stmts"]:
+                    if stt["k"] == "assign" and stt["rv"]["k"] == "aggregate" and stt["rv"]["kind"].get("path") == "block_handler::RequestCacheKey":
+                        aggs.append(stt["rv"])
+            if len(aggs) != 1 or len(aggs[0]["ops"]) != 3:
+                rep.missing("C12.2", "the single RequestCacheKey { .. } construction in From<&CoapRequest>")
+            else:
+                ka = prog.adts["block_handler::RequestCacheKey"]["variants"][0]["fields"]
+                for fi, op in enumerate(aggs[0]["ops"]):
+                    fname = ka[fi]["name"]
+                    fty = prog.types[ka[fi]["ty"]]["s"]
+                    steps, term = provenance.trace(kb, op)
+                    bad = []
+                    src = None
+                    for stp in steps:
+                        if stp[0] == "call":
+                            if stp[1] in SOURCES.values():
+                                src = stp[1]
+                                break
+                            if stp[1] not in PRESERVING:
+                                bad.append(stp[1])
+                        elif stp[0] == "cast":
+                            bad.append("cast " + str(stp[1]))
+                    if src is None and term[0] == "arg":
+                        src = "request" + term[2]
+                    elif src is None:
+                        bad.append("origin %s" % (term,))
+                    if "Vec<alloc::string::String>" in fty:
+                        want = SOURCES["path"]
+                    elif fty == "u8":
+                        want = SOURCES["method"]
+                    else:
+                        want = "request*.%d" % src_i[0] if src_i else "?"
+                    rep.ob("C12.2", "field-carried-unchanged|" + fname, not bad and src == want,
+                           "cache key field `%s` is not its request datum carried unchanged (origin %s, expected %s; passes through %s): "
+                           "distinct transfers can collide on one state" % (fname, src, want, bad or "-"), site,
+                           sample={"rule": "C12.2", "field": fname, "origin": src, "steps": [st_[1] for st_ in steps if st_[0] == "call"]})
             a = prog.adts.get("block_handler::RequestCacheKey")
             rep.ob("C12.2", "three-fields", a is not None and len(a["variants"][0]["fields"]) == 3,
                    "RequestCacheKey no longer has the three fields (method, path segments, requester)")
